@@ -320,7 +320,10 @@ func (e *specEnv) ident(name string) specVal {
 		return sv
 	}
 	fn := e.fr.fn
-	if e.loop != nil {
+	_, carried := e.over[name]
+	if e.loop != nil && !carried {
+		// (a loop-carried variable of the loop whose invariant is evaluated is resolved through e.over below:
+		// it denotes the phi, never one of the intermediate values the body computes for it)
 		// innermost scope first: variables declared in the loop body, then in the enclosing loops
 		scopes := []*loopInfo{e.loop}
 		{
@@ -1269,6 +1272,9 @@ func (e *specEnv) call(c SCall) specVal {
 			}
 			if ok {
 				for _, c := range con.Ensures {
+					if v.w.mentionsCallObservers(c.Expr, con.PkgShort, 0) {
+						continue
+					}
 					env := &specEnv{v: v, fr: sub, st: e.st, old: e.st, result: res, resType: callee.Signature.Results(), depth: 1}
 					if t, good := tryEvalBool(env, c.Expr); good {
 						v.sc.Assert(Implies(And(append([]Term{e.g()}, pre...)...), t))
